@@ -214,7 +214,9 @@ def tie(ctx, model_ok=True):
             res['failing'].append({'signature': f'wrong-verdict:{r[0]}',
                                    'what': f'{r} on {before}: {"returned" if got else "raised RecognitionError"}, documented condition says {"accept" if want else "reject"}',
                                    'case': {'node': before, 'rop': repr(r)}})
-        if want is not None and isinstance(got, Exception):
+        # (whatever the documented condition says about this node -- also where it is silent, e.g. a key given twice -- a helper
+        #  either returns or raises RecognitionError; anything else escapes the recogniser)
+        if isinstance(got, Exception):
             res['failing'].append({'signature': f'raises-other:{r[0]}:{type(got).__name__}',
                                    'what': f'{r} on {before} raised {type(got).__name__}: {got}',
                                    'case': {'node': before, 'rop': repr(r)}})
